@@ -1,6 +1,7 @@
 import OxiVerif.Lemmas.C14
 import OxiVerif.Model.C14Old
 import OxiVerif.Model.C14Graph
+import OxiVerif.Lemmas.C14Graph
 set_option linter.unusedSimpArgs false
 set_option linter.unusedVariables false
 /-!
@@ -23,6 +24,12 @@ namespace OxiVerif.C14
 
 def md0 (id : Nat) (ph : Option Str) : Meta := ⟨id, 0, ph, [], none, false, false, false⟩
 def cfg100 : Config := ⟨100, true, true, false⟩
+
+/-- `[Title N, P(N), Title N]` -/
+def witnessLatest : List Elem :=
+  [⟨.title, .text ['N'], md0 1 none⟩,
+   ⟨.paragraph, .text ['x'], md0 2 (some ['N'])⟩,
+   ⟨.title, .text ['N'], md0 3 none⟩]
 
 /-- `[Title H1, P(H1), P(no heading), P("Gone")]` -/
 def witnessDropInput : List Elem :=
@@ -403,6 +410,36 @@ theorem C14_active_map_most_recent (titles : List (Str × Nat)) (k : Str) :
 
 example : (TitleMap.insert (TitleMap.insert [] ['N'] 0) ['N'] 2).get ['N'] = some 2 := by decide
 
+/-- **`ElementGraph::build`: parent links** (the literal two-map transcription).  Whenever the graph
+gives element `i` the parent `t`, then `i` is a non-title element that names a heading text `h`,
+`t < i` is a Title with exactly that text, and no title with that text lies between them — the
+NEAREST PRECEDING title with the element's `parent_heading`, as the module documentation says.
+(The seeded change "consult `latest_title_for_heading`" breaks `t < i`: `C14_witness_latest_map`.) -/
+theorem C14_graph_build_parent (els : List Elem) (i t : Nat)
+    (h : (Graph.build els).parentOf i = some t) :
+    t < i ∧ ∃ e hd, els[i]? = some e ∧ e.isTitle = false ∧ e.md.parentHeading = some hd ∧
+      TitleAt els t hd ∧ ∀ t', t < t' → t' < i → ¬ TitleAt els t' hd := by
+  have inv0 : P2Inv els 0 (p2init els) := by
+    refine ⟨fun h t hg => ?_, fun h _ t' ht' => by omega, fun i t hp => ?_⟩
+    · simp [TitleMap.get, p2init] at hg
+    · simp only [p2init] at hp
+      rw [List.getElem?_replicate] at hp
+      split at hp <;> simp at hp
+  have inv := p2_fold els 0 els _ (fun j e hj => by simpa using hj) inv0
+  have hp : ((indexedFrom 0 els).foldl buildPass2Step (p2init els)).parent[i]? = some (some t) := by
+    rw [← build_parent_eq]
+    simp only [Graph.parentOf] at h
+    rw [List.getD_eq_getElem?_getD] at h
+    cases hq : (Graph.build els).parent[i]? with
+    | none => simp [hq] at h
+    | some v => simp [hq] at h; rw [h]
+  obtain ⟨_, h2, h3⟩ := inv.par i t hp
+  exact ⟨h2, h3⟩
+
+example : (Graph.build witnessLatest).parentOf 1 = some 0 ∧
+    (Graph.buildLatest witnessLatest).parentOf 1 = some 2 := by decide
+
+
 /-! ### kernel-checked witnesses -/
 
 /-- `[Title A, Title B, P(A), P(B)]`: children are gathered per title, so the paragraph of `A`
@@ -456,11 +493,6 @@ theorem C14_witness_graph_sum :
 /-- REGRESSION (seeded): a second pass that consults `latest_title_for_heading` (the LAST title
 with that text in the whole document) attaches `P("N")` of the first "N" section to the later
 title "N": the paragraph is emitted after the second title. -/
-def witnessLatest : List Elem :=
-  [⟨.title, .text ['N'], md0 1 none⟩,
-   ⟨.paragraph, .text ['x'], md0 2 (some ['N'])⟩,
-   ⟨.title, .text ['N'], md0 3 none⟩]
-
 theorem C14_witness_latest_map :
     (chunkWithGraphLit cfg100 wordProxy witnessLatest).flatMap (·.elements) = witnessLatest ∧
     (chunkWithGraphOn cfg100 wordProxy witnessLatest (Graph.buildLatest witnessLatest)).flatMap (·.elements)
